@@ -16,12 +16,15 @@ mod c04;
 mod c05;
 mod c06;
 mod c07;
+mod c08;
+mod c09;
 mod c10;
 mod c15;
 mod c16;
 mod c17;
 mod c18;
 mod c19;
+mod c20;
 
 use crate::core::{Ctx, Tier};
 
@@ -34,6 +37,56 @@ fn main() {
     let args: Vec<String> = std::env::args().skip(1).collect();
     if args.is_empty() {
         usage();
+    }
+    if args[0] == "--bench" {
+        core::install_panic_hook();
+        let dir = core::private_cwd("bench", "w");
+        let t = fixture::Torrent::new("t", 16387, &[("f", 2 * 16387 + 5)], true);
+        let cfg = world::WorldCfg { torrent: t.clone(), have: vec![0, 2], peers: vec![world::peer_cfg(0, true)], gated: false };
+        let n = 200;
+        let t0 = std::time::Instant::now();
+        for _ in 0..n {
+            let rt = httpfake::runtime();
+            drop(rt);
+        }
+        println!("runtime create+drop: {:?}/iter", t0.elapsed() / n);
+        let t0 = std::time::Instant::now();
+        for _ in 0..n {
+            let w = world::World::new(&cfg, &dir);
+            drop(w);
+        }
+        println!("world new+drop (2 piece files): {:?}/iter", t0.elapsed() / n);
+        let t0 = std::time::Instant::now();
+        for _ in 0..n {
+            let mut w = world::World::new(&cfg, &dir);
+            let id = w.peers[0].cfg.id;
+            w.feed(0, &[refwire::handshake(t.meta.info_hash(), &id)]);
+            w.feed(0, &[refwire::Msg::Bitfield(vec![0xe0])]);
+            w.feed(0, &[refwire::Msg::Request(0, 0, 1)]);
+            drop(w);
+        }
+        println!("world + 3 steps incl. piece load: {:?}/iter", t0.elapsed() / n);
+        let mut w = world::World::new(&cfg, &dir);
+        let id = w.peers[0].cfg.id;
+        w.feed(0, &[refwire::handshake(t.meta.info_hash(), &id)]);
+        let t0 = std::time::Instant::now();
+        for _ in 0..n {
+            w.feed(0, &[refwire::Msg::KeepAlive]);
+        }
+        println!("one step (keepalive): {:?}/iter", t0.elapsed() / n);
+        let t0 = std::time::Instant::now();
+        w.step(&world::Ev::AdvanceTo(20_500), &[]);
+        println!("advance 20.5s: {:?}", t0.elapsed());
+        let t0 = std::time::Instant::now();
+        for k in 1..=12u64 {
+            w.step(&world::Ev::AdvanceTo(20_500 + k * 40_000), &[]);
+        }
+        println!("advance 12 x 40 s: {:?}; dead={:?} ended={}", t0.elapsed(), w.dead, w.peers[0].ended.get());
+        let t0 = std::time::Instant::now();
+        let c = reqwest::Client::new();
+        println!("reqwest client: {:?}", t0.elapsed());
+        drop(c);
+        return;
     }
     if args[0] == "--probe" {
         std::process::exit(c16::probe_main(&args[1..]));
@@ -82,12 +135,15 @@ fn main() {
             "C05" => c05::replay(&ctx, &v["replay"]),
             "C06" => c06::replay(&ctx, &v["replay"]),
             "C07" => c07::replay(&ctx, &v["replay"]),
+            "C08" => c08::replay(&ctx, &v["replay"]),
+            "C09" => c09::replay(&ctx, &v["replay"]),
             "C10" => c10::replay(&ctx, &v["replay"]),
             "C15" => c15::replay(&ctx, &v["replay"]),
             "C16" => c16::replay(&ctx, &v["replay"]),
             "C17" => c17::replay(&ctx, &v["replay"]),
             "C18" => c18::replay(&ctx, &v["replay"]),
             "C19" => c19::replay(&ctx, &v["replay"]),
+            "C20" => c20::replay(&ctx, &v["replay"]),
             _ => usage(),
         };
         core::cleanup_scratch();
@@ -100,12 +156,15 @@ fn main() {
         "C05" => c05::run(&ctx),
         "C06" => c06::run(&ctx),
         "C07" => c07::run(&ctx),
+        "C08" => c08::run(&ctx),
+        "C09" => c09::run(&ctx),
         "C10" => c10::run(&ctx),
         "C15" => c15::run(&ctx),
         "C16" => c16::run(&ctx),
         "C17" => c17::run(&ctx),
         "C18" => c18::run(&ctx),
         "C19" => c19::run(&ctx),
+        "C20" => c20::run(&ctx),
         _ => usage(),
     };
     let outcome = match std::panic::catch_unwind(std::panic::AssertUnwindSafe(run)) {
